@@ -7,6 +7,7 @@ import EchVerif.Resolve.Targets
 import EchVerif.Resolve.Resolve
 import EchVerif.Dial.Config
 import EchVerif.Ctx.Lts
+import EchVerif.Publish
 /-
   echdrv: line protocol driver.  One op per input line, one answer per output line.
   Imports no Mathlib (so that it links).  Each handler lives next to the model it drives.
@@ -31,6 +32,7 @@ def showSpec (c : ConfigSpec) : String :=
 
 /-- per-case state of the Conn family ops -/
 structure World where
+  pub : Publish.PState := { zones := [] }
   cache : Resolve.CState := {}
   H : Hpke := {}
   keys : List Key := []
@@ -307,6 +309,52 @@ def readOutcomes (s : String) : Option (List Outcome) :=
     | _ => none
 end DT
 
+namespace PT
+open Publish
+def readZones (s : String) : Option (List Zone) :=
+  if s = "_" then some [] else (s.splitOn ";").mapM fun z =>
+    match z.splitOn ":" with
+    | [hd, recs] =>
+      match hd.splitOn "," with
+      | [zn, zid] => do
+        let rs ← (if recs = "_" then some [] else (recs.splitOn "|").mapM fun r => match r.splitOn "," with
+          | [rid, rn, v] => do some (⟨← unhex rid, ← unhex rn, ← unhex v⟩ : Rec)
+          | _ => none)
+        some ⟨← unhex zn, ← unhex zid, rs⟩
+      | _ => none
+    | _ => none
+def readTgts (s : String) : Option (List Tgt) :=
+  if s = "_" then some [] else (s.splitOn ";").mapM fun t => match t.splitOn "," with
+    | [z, n] => do some ⟨← unhex z, ← unhex n⟩
+    | _ => none
+def statusS : Status → String
+  | .updated => "updated" | .notFound => "notfound" | .noChange => "nochange" | .error => "error"
+def showZones (zs : List Zone) : String :=
+  DNS.Text.semi (zs.map fun z => s!"{hex z.name},{hex z.id}:" ++
+    (if z.recs.isEmpty then "_" else "|".intercalate (z.recs.map fun r => s!"{hex r.id},{hex r.name},{hex r.value}")))
+end PT
+
+def publishOp (w : World) (toks : List String) : Option (World × String) :=
+  match toks with
+  | ["cf-reset", zones] => do
+    let zs ← PT.readZones zones
+    some ({ w with pub := { zones := zs } }, "ok")
+  | ["cf-publish", tgts, new, faults] => do
+    let ts ← PT.readTgts tgts
+    let new ← unhex new
+    let fl ← natList faults
+    let s0 := { w.pub with reqs := 0, patches := [] }
+    let r := Publish.publish (fun n => fl.contains n) s0 ts new
+    let patches := DNS.Text.semi (r.2.patches.map fun (i, v) => s!"{hex i}={hex v}")
+    some ({ w with pub := r.2 }, s!"results={",".intercalate (r.1.map PT.statusS)} patches={patches} reqs={r.2.reqs}")
+  | ["cf-state"] => some (w, PT.showZones w.pub.zones)
+  | ["cf-rewrite", v, new] => do
+    let v ← unhex v; let new ← unhex new
+    match Publish.rewrite v new with
+    | none => some (w, "nochange")
+    | some x => some (w, "ok " ++ hex x)
+  | _ => none
+
 def readObs (s : String) : Option Ctx.Obs :=
   match s with
   | "hello" => some .hello | "cancel" => some .cancel | "fire" => some .fire | "clear" => some .clear
@@ -392,7 +440,7 @@ partial def loop (h : IO.FS.Stream) (out : IO.FS.Stream) (w : World) : IO Unit :
   let line ← h.getLine
   if line.isEmpty then return ()
   let toks := (line.trimAscii.toString.splitOn " ").filter (· ≠ "")
-  match connOp w toks with
+  match (match connOp w toks with | some r => some r | none => publishOp w toks) with
   | some (w', ans) => out.putStrLn ans; loop h out w'
   | none =>
     match specOp toks with
